@@ -393,6 +393,9 @@ def oracle_fails(pid, op, orc, op_core=None):
         a = orc.get("alloc")
         if a is not None and a not in ("0", "panic"):
             out.append(f"alloc={a}")
+        a = orc.get("redballoc")
+        if a is not None and a not in ("0", "panic"):
+            out.append(f"redballoc={a} (heap allocations inside RedbValue::from_bytes)")
     elif pid == "C07":
         if bad("pfx"):
             out.append("pfx=" + orc["pfx"])
@@ -403,6 +406,9 @@ def oracle_fails(pid, op, orc, op_core=None):
     elif pid == "C09":
         if bad("brk"):
             out.append("brk=" + orc["brk"])
+        v = bad("selfv")
+        if v and "under-break-policy" in v:
+            out.append("selfv=" + v)
     elif pid == "C10":
         if bad("redbtx") and "txid" in orc["redbtx"]:
             out.append("redbtx=" + orc["redbtx"])
@@ -417,6 +423,9 @@ def oracle_fails(pid, op, orc, op_core=None):
         v = bad("self")
         if v:
             out.append("self=" + v)
+        v = bad("selfv")
+        if v and "never-breaking" in v or (v and "remainder" in v) or (v and "panics" in v):
+            out.append("selfv=" + v)
     elif pid == "C16":
         if bad("redbtx") and "weight" in orc["redbtx"]:
             out.append("redbtx=" + orc["redbtx"])
